@@ -274,6 +274,142 @@ def job_formulas(j):
     return n, res
 
 
+# ------------------------------------------------------------------ relations inside read_runtime_data() results
+
+def relations(fam, inv, d, hidden=None):
+    """Relations between values of ONE result of read_runtime_data() of a real, configured inverter object.
+    `hidden`: documented reading of the same response's registers for parts the model does not report (a two-tracker
+    model hides ppv3/ppv4, the total is still defined over the registers of the response)."""
+    out = []
+    d = dict(hidden or {}, **d)
+    sens = {s.id_: s for s in inv.sensors()}
+    for sid, s in sens.items():
+        if sid.endswith('_label') and hasattr(s, '_labels') and tname(s) in ('Enum', 'EnumH', 'EnumL', 'Enum2', 'EnumCalculated'):
+            code = sid[:-len('_label')]
+            if code in d and sid in d and isinstance(d[code], int):
+                if d[sid] != s._labels.get(d[code]):
+                    out.append((f'{sid}-is-lookup-of-{code}', f'{code}={d[code]} {sid}={d[sid]!r}'))
+
+    def has(*ks):
+        return all(k in d and d[k] is not None for k in ks)
+    if fam == 'ET':
+        if has('active_power', 'grid_in_out'):
+            want = 2 if d['active_power'] < -90 else 1 if d['active_power'] >= 90 else 0
+            if d['grid_in_out'] != want:
+                out.append(('grid_in_out-follows-active_power', f"active_power={d['active_power']} grid_in_out={d['grid_in_out']}"))
+        parts = [k for k in ('ppv1', 'ppv2', 'ppv3', 'ppv4') if k in d]
+        if len(parts) < 4:
+            parts = []
+        if 'ppv' in d and parts and d['ppv'] != sum(nz(d[k]) for k in parts):
+            out.append(('ppv-is-sum-of-parts', f"ppv={d['ppv']} parts={[d[k] for k in parts]}"))
+        if has('house_consumption', 'pbattery1', 'active_power') and parts:
+            want = sum(nz(d[k]) for k in parts) + d['pbattery1'] - d['active_power']
+            if d['house_consumption'] != want:
+                out.append(('house_consumption-formula', f"house_consumption={d['house_consumption']} expected {want} "
+                            f"(active_power={d['active_power']}, pbattery1={d['pbattery1']})"))
+    elif fam == 'DT':
+        for i in (1, 2, 3):
+            for a, v, c in ((f'ppv{i}', f'vpv{i}', f'ipv{i}'), (f'pgrid{i}', f'vgrid{i}', f'igrid{i}')):
+                if has(a, v, c) and not approx_round(d[a], d[v] * d[c]):
+                    out.append((f'{a}-is-v*i', f'{a}={d[a]} {v}={d[v]} {c}={d[c]}'))
+        parts = [k for k in ('ppv1', 'ppv2', 'ppv3') if has(k)]
+        if has('ppv') and len(parts) == 3 and tname(sens['ppv']) == 'Calculated' and d['ppv'] != sum(d[k] for k in parts):
+            out.append(('ppv-is-sum-of-parts', f"ppv={d['ppv']} parts={[d[k] for k in parts]}"))
+    else:
+        for a, v, c in (('ppv1', 'vpv1', 'ipv1'), ('ppv2', 'vpv2', 'ipv2')):
+            if has(a, v, c) and not approx_round(d[a], d[v] * d[c]):
+                out.append((f'{a}-is-v*i', f'{a}={d[a]} {v}={d[v]} {c}={d[c]}'))
+        if has('ppv', 'ppv1', 'ppv2') and d['ppv'] != d['ppv1'] + d['ppv2']:
+            out.append(('ppv-is-sum-of-parts', f"ppv={d['ppv']}"))
+        if 'plant_power' in d and d['plant_power'] != nz(d.get('pload')) + nz(d.get('pback_up')):
+            out.append(('plant_power-formula', f"plant_power={d['plant_power']}"))
+        if has('house_consumption', 'ppv1', 'ppv2', 'pbattery1', 'pgrid') and \
+                d['house_consumption'] != d['ppv1'] + d['ppv2'] + d['pbattery1'] - d['pgrid']:
+            out.append(('house_consumption-formula', f"house_consumption={d['house_consumption']}"))
+        if has('pgrid', 'grid_in_out') and (d['pgrid'] > 0) and d['grid_in_out'] == 2:
+            out.append(('pgrid-sign-follows-grid_in_out', f"pgrid={d['pgrid']} grid_in_out={d['grid_in_out']}"))
+    return out
+
+
+W16 = (0, 1, 89, 90, 0x7FFF, 0x8000, 0xFFA5, 0xFFA6, 0xFFFF)
+
+
+def job_api(cfg):
+    """A configured inverter object (read_device_info done) polled once per assignment of the registers the derived
+    sensors depend on - the words around the power registers included (a model-dependent sensor layout must keep raw and
+    derived values consistent)."""
+    from ..configs import make_rig
+    world.reset()
+    fam = cfg['family']
+    seedv = cfg.get('seed', 0)
+    r = make_rig(cfg, 'udp', fill=lambda a: (a * 7919 + seedv * 31 + 3) & 0x7FFF)
+    inv = r.inv
+    if r.call(inv.read_device_info)[0] != 'ok':
+        return 0, [dict(key=f'api/{fam}/device-info', clause='device info readable', n=1, replay=dict(kind='api', cfg=cfg), detail={})]
+    vio = {}
+    n = 0
+
+    def poll(assign):
+        nonlocal n
+        st = r.call(inv.read_runtime_data)
+        n += 1
+        if st[0] != 'ok':
+            return
+        hidden = {}
+        if fam == 'ET':
+            for s in world.tables(world.FAMILIES['ET'])['all_sensors']:
+                if s.id_ in ('ppv1', 'ppv2', 'ppv3', 'ppv4') and s.id_ not in st[1]:
+                    v = refdec.decode(s, r.dev.rf.getbytes(s.offset, 2))
+                    hidden[s.id_] = None if v is refdec.NOVALUE else v
+        for name, cause in relations(fam, inv, st[1], hidden):
+            key = f'api:{name}/{fam}'
+            vio.setdefault(key, []).append(dict(key=key, clause=name, replay=dict(kind='api', cfg=cfg, assign=assign),
+                                                detail=dict(cause=cause, registers=assign, model=cfg['tag'], rated=cfg['power'])))
+    if fam == 'ES':
+        dev = r.dev
+        for a in W16:
+            for b in (0, 1, 2, 3, 0x80, 0xFF):
+                dev.runtime[38:40] = a.to_bytes(2, 'big')
+                dev.runtime[18:20] = ((a * 3) & 0xFFFF).to_bytes(2, 'big')
+                for pos in (30, 37, 40, 41, 80):     # mode bytes around the power words
+                    if pos < len(dev.runtime):
+                        dev.runtime[pos] = b
+                poll([a, b])
+    else:
+        rf = r.dev.rf
+        base = 35139 if fam == 'ET' else 30127
+        for hi in W16:
+            for lo in W16:
+                for k, other in enumerate((0, 0xFFFF)):
+                    rf.set(base, hi)
+                    rf.set(base + 1, lo)
+                    rf.set(base - 1, other)
+                    rf.set(base + 2, other ^ 0x0F0F)
+                    if fam == 'ET':
+                        rf.set(35105, other)          # ppv1 high word
+                        rf.set(35182, hi)             # pbattery1 high word
+                        rf.set(35183, lo ^ other)
+                    poll([hi, lo, other])
+    res = []
+    for key, lst in vio.items():
+        lst[0]['n'] = len(lst)
+        res.append(lst[0])
+    return n, res
+
+
+def api_configs(tier, seed):
+    from ..configs import et_configs, dt_configs, es_configs
+    seen = set()
+    out = []
+    for c in list(et_configs(tier, seed)) + list(dt_configs(tier, seed)) + list(es_configs(tier, seed)):
+        k = (c['family'], c['tag'], c['power'], c.get('firmware'))
+        if c['refused'] or c['battery_mode'] != (2 if c['family'] == 'ET' else 0) or k in seen:
+            continue
+        seen.add(k)
+        out.append(dict(c, seed=seed))
+    return out
+
+
 def pinned_labels_part(rep):
     """Which documented label table every label sensor looks its code up in (and the tables' contents), pinned."""
     import json
@@ -322,7 +458,13 @@ def run(tier, seed, rep):
     for n, res in pmap(job_formulas, [(f, seed) for f in ('ET', 'DT', 'ES')]):
         total += n
         rep.add_many(res)
-    cov = dict(evaluations=total + nl, distinct_nontrivial=total, pinned_label_tables_compared=nl,
+    napi = 0
+    acfgs = api_configs(tier, seed)
+    for n, res in pmap(job_api, acfgs):
+        napi += n
+        rep.add_many(res)
+    total += napi
+    cov = dict(evaluations=total + nl, api_results_checked=napi, api_configurations=len(acfgs), distinct_nontrivial=total, pinned_label_tables_compared=nl,
                rule='every (code, label) pair discovered structurally in every table: all 65536 code words (all 256 x other '
                     'half for one-byte codes); 4-byte bitmaps: all 65536 values of each half x other half in '
                     '{0,0xFFFF,0x8001}; two-word bitmaps: all 65536 values of each word x the other in {0,1,0x8000,0xFFFF}; '
@@ -344,6 +486,13 @@ def replay(r):
         rp = Report('C13')
         pinned_labels_part(rp)
         return dict(violations=sorted(rp.by_key))
+    if r['kind'] == 'api':
+        cfg = r['cfg']
+        cfg['refused'] = tuple(cfg['refused'])
+        if cfg.get('firmware'):
+            cfg['firmware'] = cfg['firmware'].encode() if isinstance(cfg['firmware'], str) else cfg['firmware']
+        n, res = job_api(cfg)
+        return dict(polls=n, violations=[v['key'] for v in res])
     if r['kind'] == 'pair':
         t = [x for x in all_tables() if [x.family, x.name] == r['table']][0]
         pairs = [p for p in find_pairs(t) if p[2].id_ == r['label']]
